@@ -303,3 +303,110 @@ def e2e_cases(draw, profile):
         if fr:
             case['fresh'] = fr[0]
     return case
+
+
+# ---------------------------------------------------------------- C19
+@st.composite
+def pp_cases(draw):
+    thr = draw(st.integers(1, 24))
+    chunk = draw(st.integers(1, 12))
+    workers = draw(st.integers(1, 3))
+    nd = draw(st.integers(1, 2))
+    downloads = []
+    for _ in range(nd):
+        njobs = draw(st.integers(1, 4))
+        size = draw(st.one_of(
+            st.integers(0, thr + 1),
+            st.integers(max(thr, (njobs - 1) * chunk + 1),
+                        max(thr, njobs * chunk)),
+            st.sampled_from([0, 1, thr - 1, thr, thr + 1, 2 * chunk,
+                             3 * chunk + 1])))
+        downloads.append({
+            'size': max(0, size),
+            'preexist': draw(st.sampled_from([None, None, 0, 9])),
+            'expected_size': draw(st.booleans()),
+            'extra': {}})
+    sites = ['s3.head_object', 's3.get_object', 's3.get_object',
+             'stream.read', 'stream.read', 'fs.allocate', 'fs.rename',
+             'fs.open', 'fs.write']
+
+    def mk(site, nth, exc, when):
+        d = {'site': site, 'nth': nth, 'exc': exc, 'when': 'before'}
+        if site.startswith('s3.'):
+            d['when'] = when
+        if exc.startswith('retryable') and site not in (
+                'stream.read', 's3.get_object'):
+            d['exc'] = 'injected'
+        if site not in MANY:
+            d['nth'] = nth % 2
+        return d
+    faults = draw(st.lists(
+        st.builds(mk, st.sampled_from(sites),
+                  st.sampled_from([0, 0, 1, 2, 3, 5]),
+                  st.sampled_from(['injected', 'oserror', 'retryable:1',
+                                   'retryable:3', 'valueerror']),
+                  st.sampled_from(['before', 'before', 'after'])),
+        max_size=2))
+    kinds = ['retryable:0', 'retryable:1', 'retryable:2', 'retryable:3',
+             'retryable:4', 'injected']
+    stream = draw(st.lists(st.fixed_dictionaries({
+        'short': st.lists(st.integers(0, 6), max_size=3),
+        'fault_at': st.one_of(st.none(), st.none(), st.integers(0, 20)),
+        'fault': st.sampled_from(kinds)}), max_size=7))
+    how = draw(st.sampled_from(['shutdown', 'shutdown', 'with', 'with_kbi',
+                                'with_exc']))
+    end = {'how': how, 'wait_results': draw(st.booleans())}
+    if how in ('with_kbi', 'with_exc'):
+        end['at'] = draw(st.integers(0, 200))
+        end['wait_results'] = False
+    case = {
+        'cfg': {'multipart_threshold': thr, 'multipart_chunksize': chunk,
+                'workers': workers},
+        'downloads': downloads, 'faults': faults,
+        'scripts': {'stream': stream},
+        'cancels': draw(st.lists(st.fixed_dictionaries({
+            't': st.integers(0, nd - 1), 'at': st.integers(0, 200)}),
+            max_size=2)),
+        'end': end, 'sched': draw(schedules()),
+    }
+    k = draw(st.one_of(st.none(), st.none(), st.integers(0, 200)))
+    if k is not None:
+        case['kbi'] = {'at': k}
+    return case
+
+
+# ---------------------------------------------------------------- C20
+@st.composite
+def crt_cases(draw):
+    permits = draw(st.integers(1, 3))
+    n = draw(st.integers(1, 6))
+    transfers = []
+    for _ in range(n):
+        typ = draw(st.sampled_from(['upload', 'download', 'download',
+                                    'delete']))
+        t = {'type': typ, 'size': draw(st.integers(0, 12)),
+             'subs': draw(st.integers(0, 2)),
+             'fail': draw(st.sampled_from([None, None, None, 'serializer',
+                                           'make_request', 'on_queued'])),
+             'finish': draw(st.sampled_from(['ok', 'ok', 'error',
+                                             'cancel'])),
+             'raise_done': False}
+        if typ != 'delete':
+            t['target'] = draw(st.sampled_from(['path', 'stream']))
+        if typ == 'download':
+            t['preexist'] = draw(st.sampled_from([None, None, 4]))
+        if t['fail'] == 'on_queued' and t['subs'] == 0:
+            t['subs'] = 1
+        transfers.append(t)
+    how = draw(st.sampled_from(['shutdown', 'shutdown', 'shutdown_cancel',
+                                'with', 'with_exc']))
+    end = {'how': how}
+    if how in ('shutdown_cancel', 'with_exc'):
+        end['at'] = draw(st.integers(0, 150))
+    faults = draw(st.lists(st.builds(
+        lambda nth: {'site': 'fs.rename', 'nth': nth, 'exc': 'oserror',
+                     'when': 'before'}, st.integers(0, 2)), max_size=1))
+    return {'permits': permits, 'transfers': transfers,
+            'order': draw(st.lists(st.integers(0, 5), max_size=8)),
+            'nthreads': draw(st.integers(1, 2)), 'end': end,
+            'faults': faults, 'sched': draw(schedules())}
